@@ -779,6 +779,13 @@ theorem end_stops_reading (cs ds : List LineClass) : readC (cs ++ LineClass.head
   · assumption
   · simp
 
+/-- the sections the permutation oracle never shuffles are READ OFF the reader code (`Gen.orderSensitive`, with the reason);
+every section a human expects to be order-sensitive is among them ([BACKDROP] only assigns: the last line of a key wins) -/
+theorem order_sensitive_covers_expected :
+    (Wntr.InpSchema.Gen.orderSensitiveExpected.all fun s => s == "[BACKDROP]" || Wntr.InpSchema.Gen.orderSensitive.any fun p => p.1 == s) = true ∧
+    (Wntr.InpSchema.Gen.orderSensitive.all fun p => Wntr.InpSchema.Gen.inpSections.contains p.1) = true := by
+  constructor <;> decide +kernel
+
 /-- the fixed order: every section has exactly one place in it, and it is a permutation of `_INP_SECTIONS` -/
 theorem read_order_fixed : Wntr.InpSchema.Gen.readOrder.Nodup ∧ Wntr.InpSchema.Gen.readOrder.Perm Wntr.InpSchema.Gen.inpSections := by
   constructor <;> decide +kernel
@@ -838,5 +845,21 @@ was written from (decided on the keywords and attributes the translator extracte
 theorem times_keywords_roundtrip :
     (Wntr.InpSchema.Gen.timesWritten.all fun kf => timesField (kf.1.headD "") ((kf.1.drop 1).headD "") == kf.2) = true := by
   decide +kernel
+
+/-- the dispatch of `_read_times` as extracted from the source (special cases in order, then the generic `<w0>_<w1>` rule) -/
+def timesFieldG (w0 w1 : String) : String :=
+  match Wntr.InpSchema.Gen.timesDispatch.find? (fun d => (if d.1 == 0 then w0.toUpper else w1.toUpper) == d.2.1) with
+  | some d => d.2.2
+  | none => w0.toLower ++ "_" ++ w1.toLower
+
+/-- **`times_model_matches_source`**: the hand-transliterated `timesField` (run by the driver) is the dispatch extracted from
+`_read_times`, on every keyword the writer produces and on the special words themselves -/
+theorem times_model_matches_source :
+    (Wntr.InpSchema.Gen.timesWritten.all fun kf =>
+      timesFieldG (kf.1.headD "") ((kf.1.drop 1).headD "") == timesField (kf.1.headD "") ((kf.1.drop 1).headD "") &&
+      timesFieldG (kf.1.headD "") ((kf.1.drop 1).headD "") == kf.2) = true ∧
+    Wntr.InpSchema.Gen.timesDispatch = [(0, "DURATION", "duration"), (0, "HYDRAULIC", "hydraulic_timestep"), (0, "QUALITY", "quality_timestep"),
+      (1, "CLOCKTIME", "start_clocktime"), (0, "STATISTIC", "statistic")] := by
+  constructor <;> decide +kernel
 
 end Wntr.InpTimes
